@@ -68,6 +68,14 @@ func runCmd(args []string, stdin string) (stdout, stderr string, code, diags int
 	}
 	ch := make(chan res, 1)
 	go func() {
+		defer func() {
+			if rec := recover(); rec != nil {
+				// the command crashed on this input: report it with the input and go on
+				gctx.Violate(keyOf("command-panic", stable(args)+"<"+stdin), fmt.Sprintf("gojq %s panics: %v", stable(args), rec),
+					map[string]any{"args": args, "stdin": stdin, "observed": fmt.Sprint("panic: ", rec), "expected": "outputs or a diagnostic", "cmd": "printf %s" + shq([]string{stdin}) + " | gojq" + shq(args)})
+				ch <- res{[]cli.VerifChunk{{Stream: 2, Data: []byte(fmt.Sprint("panic: ", rec))}}, 2}
+			}
+		}()
 		c, code := cli.VerifRunLog(args, []byte(stdin), false)
 		ch <- res{c, code}
 	}()
@@ -564,7 +572,12 @@ func inputsCorrespondence(ctx *common.Ctx, r *common.Rand) {
 				fields = append(fields, "F "+content(s))
 			}
 		}
-		items := cli.VerifInputs(m.raw, m.stream, m.slurp, l.fileArgs(), []byte(l.stdin.text))
+		items, pmsg := safeInputs(m.raw, m.stream, m.slurp, l.fileArgs(), []byte(l.stdin.text))
+		if pmsg != "" {
+			ctx.Violate("inputs-panic:"+m.name+":"+common.Hex(l.stdin.text)[:min(40, 2*len(l.stdin.text))], fmt.Sprintf("the command's input iterator panics in mode %s: %s", m.name, pmsg),
+				map[string]any{"mode": m.name, "stdin": l.stdin.text, "files": fields[2:], "panic": pmsg, "cmd": "gojq " + m.name + " . <files> with the given stdin"})
+			items = append(items, fmt.Errorf("panic"))
+		}
 		if len(items) >= 1<<16 {
 			runaway(append([]string{"<iterator stack, mode " + m.name + ">"}, l.fileArgs()...), l.stdin.text, "the input iterator never ends")
 		}
@@ -840,7 +853,7 @@ func modeOracle(ctx *common.Ctx, r *common.Rand) {
 // ---------------------------------------------------------------------------------------
 
 func argsOracle(ctx *common.Ctx, r *common.Rand) {
-	orc := ctx.NewOracle("args", "named bindings through --arg/--argjson/--slurpfile/--rawfile (1..5 bindings over 4 names, so names repeat within and across flags: the first binding must win in $name and $ARGS.named), positional through --args/--jsonargs (interleaved, after `--`), flags before/after the query; -f file vs the file's text as the query argument; distinct = distinct argument lists")
+	orc := ctx.NewOracle("args", "named bindings through --arg/--argjson/--slurpfile/--rawfile (1..5 bindings over 4 names, so names repeat within and across flags: the first binding must win in $name and $ARGS.named), positional through --args/--jsonargs (interleaved, after `--`), flags before/after the query, each under a random input mode of the main input (-R, --stream, -s, -R -s, --yaml-input: the named arguments must not depend on it); -f file vs the file's text as the query argument; distinct = distinct argument lists")
 	seen := map[string]bool{}
 	jsonPool := []string{`1`, `"s"`, `{"k":[1]}`, `null`, `[]`, `[1,{"a":null}]`, `1.5`, `100000000000000000000`}
 	strPool := []string{"p", "q r", "", "1", "é", "null", "a\nb", "{\"x\":1}"}
@@ -936,23 +949,26 @@ func argsOracle(ctx *common.Ctx, r *common.Rand) {
 		}
 		want = append(want, positional)
 		want = append(want, direct...)
+		// the input mode chosen for the MAIN input must not change how named arguments are read
+		base := append([]string{"-nc"}, common.Pick(r, [][]string{nil, nil, {"-R"}, {"--stream"}, {"-R", "-s"}, {"-s"}, {"--yaml-input"}, {"--stream", "-s"}})...)
+		orc.Distribution["main-input-mode:"+strings.Join(base[1:], "")]++
 		var args []string
 		switch {
 		case dashdash || len(pos) == 0:
 			// everything after `--` is positional, so the flags come first
 			if r.Bool() {
-				args = append(append(append([]string{"-nc"}, flags...), q), pos...)
+				args = append(append(append(append([]string{}, base...), flags...), q), pos...)
 			} else {
-				args = append(append([]string{"-nc", q}, flags...), pos...)
+				args = append(append(append(append([]string{}, base...), q), flags...), pos...)
 			}
 		case r.Chance(1, 3):
 			// query after --args: the first free argument is still the query
-			args = append(append(append([]string{"-nc"}, flags...), pos[0], q), pos[1:]...)
+			args = append(append(append(append([]string{}, base...), flags...), pos[0], q), pos[1:]...)
 		case r.Bool():
 			// named flags after the positional ones are still flags
-			args = append(append([]string{"-nc", q}, pos...), flags...)
+			args = append(append(append(append([]string{}, base...), q), pos...), flags...)
 		default:
-			args = append(append([]string{"-nc", q}, flags...), pos...)
+			args = append(append(append(append([]string{}, base...), q), flags...), pos...)
 		}
 		out, errs, code, _ := runCmd(args, "")
 		orc.Cases++
@@ -1054,4 +1070,14 @@ func binaryOracle(ctx *common.Ctx, r *common.Rand) {
 	}
 	orc.Distinct = len(seen)
 	orc.Samples = []string{"gojq -c -s . f1 - f2 < stdin (process) vs cli.run (in-process)"}
+}
+
+// safeInputs calls the real iterator stack and turns a panic into a message.
+func safeInputs(raw, stream, slurp bool, files []string, stdin []byte) (items []any, pmsg string) {
+	defer func() {
+		if r := recover(); r != nil {
+			pmsg = fmt.Sprint(r)
+		}
+	}()
+	return cli.VerifInputs(raw, stream, slurp, files, stdin), ""
 }
